@@ -144,6 +144,8 @@ impl FileFormatter {
                 input_buf.clear();
 
                 let file_path = file_path?;
+                #[cfg(feature = "verif_hooks")]
+                verif_hooks::jitter(&file_path);
                 let mut file = open_options
                     .open(&file_path)
                     .with_context(|| format!("failed to open '{}'", file_path.display()))?;
@@ -389,6 +391,25 @@ impl FileFormatter {
         if let Err(e) = inner() {
             error_handler(e);
         }
+    }
+}
+
+/// Verification hook: a seeded, per-file delay so that a test harness can perturb the order in
+/// which worker threads pick up and finish files. Inactive unless `PASFMT_VERIF_JITTER` is set.
+#[cfg(feature = "verif_hooks")]
+mod verif_hooks {
+    use std::hash::{Hash, Hasher};
+    use std::path::Path;
+
+    pub(super) fn jitter(path: &Path) {
+        let Ok(seed) = std::env::var("PASFMT_VERIF_JITTER") else {
+            return;
+        };
+        let mut hasher = std::collections::hash_map::DefaultHasher::new();
+        seed.hash(&mut hasher);
+        path.hash(&mut hasher);
+        let micros = hasher.finish() % 2000;
+        std::thread::sleep(std::time::Duration::from_micros(micros));
     }
 }
 
